@@ -43,7 +43,10 @@ func Before[S ~string, T any, V constraints.Signed](n *V, c *cache.Cache[S, T], 
 		return fn()
 	}
 	if *n == 0 {
-		c.Set("func", fn(), cache.DefaultExpiration)
+		// Update, not Set: Set refuses to replace a live entry, so on a cache
+		// that still holds the result of an earlier use the callback ran but
+		// its result was dropped and the stale one returned.
+		c.Update("func", fn(), cache.DefaultExpiration)
 	}
 	memo, _ = c.Get("func")
 
